@@ -17,7 +17,7 @@ const (
 	SSlice Sort = "Slice"
 	SIface Sort = "Iface"
 	SPBox  Sort = "PBox" // a local scalar/slice variable whose address was taken: the term is the identity of its heap cell
-	SBox   Sort = "Box" // a local fixed-size array that has been sliced: the term is the identity of its heap array
+	SBox   Sort = "Box"  // a local fixed-size array that has been sliced: the term is the identity of its heap array
 )
 
 func ArrSort(elem Sort) Sort  { return Sort("(Array Int " + string(elem) + ")") }
